@@ -431,8 +431,8 @@ func c13ValueAlphabet(thorough bool) []vOp {
 		}
 	}
 	ue[1<<32-2] = true
-	delete(ue, 1<<32)   // code would need 65 bits with prefix: outside WriteExpGolomb's 32-bit Write
-	delete(ue, 1<<32-1) // 2^32-1 needs a 33-bit suffix write
+	delete(ue, 1<<32)  // code would need 65 bits with prefix: outside WriteExpGolomb's 32-bit Write
+	ue[1<<32-1] = true // the top of the 32-bit range: 32 leading zero bits, the longest code of a 32-bit value
 	us := []int64{}
 	for u := range ue {
 		us = append(us, u)
